@@ -14,11 +14,11 @@
   shorter than the batch), remove (any row: the swap-remove location fix-up; stale identifiers),
   clear (for *every* order in which the table iterator may visit the archetypes), Entry::add
   (overwrite and shape change), Entry::remove, writes through `&mut` views, reserve,
-  shrink_to_fit — and (`C13_inv_reachable_partial`) every world reachable by additionally cloning
-  reachable worlds and by deserializing *arbitrary* token streams.  NOT YET PROVED in Lean (held
-  by the correspondence check and by `invB` evaluated on every real dump): `clone_from` — the part
-  missing from the full statement.
+  shrink_to_fit — and the FULL STATEMENT (`C13_inv_reachable`): every world reachable by
+  additionally cloning reachable worlds, `clone_from` between reachable worlds, and deserializing
+  *arbitrary* token streams.
 -/
+import BroodModel.Lemmas.CloneFrom
 import BroodModel.Lemmas.DeInv
 
 namespace Brood
@@ -41,16 +41,21 @@ inductive Reachable : World → Prop
   | init (n : Nat) (res : List Val) : Reachable (World.init n res)
   | step {w w' : World} (op : Op) : Reachable w → step w op = .ok w' → Reachable w'
   | clone {w w' : World} (e next : Nat) : Reachable w → w.clone e next = .ok w' → Reachable w'
+  | cloneFrom {d s fin : World} {drops : List Val} (e : Nat) : Reachable d → Reachable s → d.n = s.n →
+      World.cloneFrom d s e = .ok (fin, drops) → Reachable fin
   | deserialize {k : Kinds} {hr : Bool} {n nres e next : Nat} {toks : List Serde.Tok} {w : World} :
       Serde.deserialize k hr n nres e next toks = .ok w → Reachable w
 
-/-- **Every reachable world satisfies the invariant** (all operations except `clone_from`). -/
-theorem C13_inv_reachable_partial {w : World} (h : Reachable w) : Inv w := by
+/-- **Every reachable world satisfies the invariant** — every public operation, any history. -/
+theorem C13_inv_reachable {w : World} (h : Reachable w) : Inv w := by
   induction h with
   | init n res => exact inv_init n res
   | step op _ e ih => exact step_inv ih e
   | clone e next _ hc ih =>
     obtain ⟨w'', h1, h2, _⟩ := clone_spec ih e next
+    rw [h1] at hc; cases hc; exact h2
+  | cloneFrom e _ _ hn hc ihd ihs =>
+    obtain ⟨fin', drops', h1, h2, _⟩ := cloneFrom_spec ihd ihs hn e
     rw [h1] at hc; cases hc; exact h2
   | deserialize hd => exact Serde.deserialize_inv hd
 
@@ -99,7 +104,7 @@ end Brood
 #print axioms Brood.C13_inv_init
 #print axioms Brood.C13_step
 #print axioms Brood.C13_inv_partial
-#print axioms Brood.C13_inv_reachable_partial
+#print axioms Brood.C13_inv_reachable
 #print axioms Brood.C13_accepted_is_stored
 #print axioms Brood.C13_stored_is_accepted
 #print axioms Brood.C13_one_row_per_identifier
